@@ -36,12 +36,18 @@ def build_L(lid, ilis, own, requires=()):
     return mk.lexicon(lid, '1', synsets=syn, requires=requires)
 
 
-def build_E(eid, ilis, edges, language='en'):
+def build_E(eid, ilis, edges, language='en', version='1'):
     syn = []
     for k, ili in enumerate(ilis):
         rels = [mk.rel(f'{eid}-{t}', 'hypernym') for (s, t) in edges if s == k]
         syn.append(mk.synset(f'{eid}-{k}', 'n', ili or '', relations=rels))
-    return mk.lexicon(eid, '1', language, synsets=syn)
+    lex = mk.lexicon(eid, version, language, synsets=syn)
+    if version != '1':
+        for ss in lex['synsets']:
+            ss['id'] += 'v' + version
+            for r in ss.get('relations', []):
+                r['target'] += 'v' + version
+    return lex
 
 
 class Ref:
@@ -279,7 +285,49 @@ def check_config(case):
         env.drop_db(dbdir)
 
 
+def check_versions(case):
+    """selected lexicons declare dependencies on two versions of one provider id"""
+    env.fresh_db()
+    dbdir = env.db_path().parent
+    V = []
+    try:
+        edges = [(0, 1), (1, 2)]
+        inst = case['installed']
+        for ver in inst:
+            env.add_resource(mk.resource([build_E('E', ('i1', 'i2', 'i3'), edges, version=ver)], '1.3'))
+        if case['layout'] == 'one':
+            Ls = [build_L('L', ('i1', None), [], requires=[{'id': 'E', 'version': '1'}, {'id': 'E', 'version': '2'}])]
+            sel = dict(lexicon='L:1')
+        else:
+            Ls = [build_L('L', ('i1', None), [], requires=[{'id': 'E', 'version': '1'}]),
+                  build_L('M', ('i2', None), [], requires=[{'id': 'E', 'version': '2'}])]
+            sel = dict(lexicon='L:1 M:1')
+        for lx in Ls:
+            env.add_resource(mk.resource([lx], '1.3'))
+        with warnings.catch_warnings(record=True) as rec:
+            warnings.simplefilter('always')
+            w = wn.Wordnet(**sel)
+        got = sorted(x.specifier() for x in w.expanded_lexicons())
+        exp = sorted(f'E:{v}' for v in ('1', '2') if v in inst)
+        if got != exp:
+            V.append(('default-expand:two-versions-of-one-provider', f'{case}: expanded_lexicons() = {got} expected {exp}'))
+        missing = [f'E:{v}' for v in ('1', '2') if v not in inst]
+        warned = [str(r.message) for r in rec if issubclass(r.category, wn.WnWarning)]
+        if bool(missing) != bool(warned) or (warned and not all(m in warned[0] for m in missing)):
+            V.append(('default-expand:warning', f'{case}: missing {missing} warnings {warned}'))
+        hy = sorted(t.id + '|' + str(t._ili) for t in w.synset('L-0').hypernyms())
+        exph = sorted(['*INFERRED*|i2'] * len(exp)) if case['layout'] == 'one' else sorted(
+            ['M-0|i2'] * len(exp))
+        if hy != sorted(set(exph)):
+            V.append(('default-expand:two-versions:relations', f'{case}: hypernyms of L-0 = {hy} expected {sorted(set(exph))}'))
+        return {'v': V, 'd': runner.digest([case, got])}
+    finally:
+        env.drop_db(dbdir)
+
+
 def check(case):
+    if case.get('versions'):
+        return check_versions(case)
     return check_config(case) if case.get('config') else check_pairs(case)
 
 
@@ -303,6 +351,9 @@ def space(tier, seed):
         for m2 in ([3, 12, 33] if tier == 'thorough' else [12]):
             cases.append({'e_ilis': ['i1', 'i2', 'i3'], 'e_mask': mask,
                           'e2': {'ilis': ['i3', 'i1', 'i2'], 'mask': m2}, 'Ls': Ls})
+    for layout in ('one', 'two'):
+        for installed in (['1', '2'], ['2', '1'], ['1'], ['2'], []):
+            cases.append({'versions': True, 'layout': layout, 'installed': installed})
     for declared in ([], ['E'], ['E', 'F'], ['F']):
         for installed in ([], ['E'], ['F'], ['E', 'F']):
             for order in ('deps-first', 'deps-last'):
